@@ -33,3 +33,11 @@ CHECKS["C18"] = c("abci", "TestC18", dict(checks=500, timeout=600), dict(checks=
              level_text="Generated sends (amounts at the spendable boundary, self, new and module recipients) delivered to the real application; after every DeliverTx the balance "
                         "delta of every account is compared with the exact expected delta. Exploration.",
              level_note="Senders are correctly signed funded accounts; fee fixed at the required 10000 uPOKT. Trusts the auth keeper's account iterator for reading balances.")
+
+CHECKS["C17"] = c("abci", "TestC17", dict(checks=250, timeout=600), dict(checks=2500, shards=14, timeout=3000),
+             technique="stateful property-based testing of the real application: invariant supply == sum of balances after every commit plus a supply-delta accounting oracle",
+             design_ref="DESIGN.md §7 C17",
+             level_text="Generated full-feature block histories (sends, stakes, unstakes, transfers, param changes, DAO actions, missed signatures) on the real application; after every commit "
+                        "the stored supply is compared with the sum over all accounts and its change with the burns observed in the block. Exploration; minting by relay rewards is exercised "
+                        "by C26 (keeper level) and C32 (claims/proofs).",
+             level_note="Histories here contain no relay proofs, so any supply increase is a violation; slashes are detected from validator records (stake decrease / newly jailed).")
